@@ -279,6 +279,7 @@ func (p *asyncPostProcess) OnFinished(f func(path string, content []byte) error)
 				verifPoint("w-err-sent", verifJob)
 			}
 		}(j.Path, unsafex.StringToBinary(j.Content))
+		verifPoint("spawned", verifJob)
 	}
 	verifPoint("final-wait", -1)
 	wg.Wait()
